@@ -20,7 +20,8 @@ pub fn kind(vi: usize, n: usize, rng: &mut Rng) -> Kind {
             if rng.coin() {
                 Kind::Ema(n)
             } else {
-                Kind::EmaAlpha(n, *rng.pick(&[0.5, 1.0]))
+                // (also weights alpha / (N + 1) of exactly 1 and of 1.25: still a stable linear filter)
+                Kind::EmaAlpha(n, *rng.pick(&[0.5, 1.0, (n + 1) as f64, 1.25 * (n + 1) as f64]))
             }
         }
         2 => {
